@@ -421,6 +421,7 @@ fn cond_class(kappa: f64) -> String {
 }
 
 fn gaussian_gen(c: &mut Case, offset: bool) {
+    let idx = c.index;
     let lab = draw_labels(c, false, 2);
     let (n, k) = (lab.n(), lab.k());
     let d = c.rng.us(1, 8);
@@ -492,7 +493,7 @@ fn gaussian_gen(c: &mut Case, offset: bool) {
         None => GaussianNBParameters::default(),
     };
     let sg = format!("f64/labels:{}", lab.style);
-    let model = match c.must("gaussian.fit", || GaussianNB::fit(&xm, &y, params)) {
+    let model = match c.must("gaussian.fit", || GaussianNB::fit(&xm, &y, scverif::reused(idx, params))) {
         Some(Ok(m)) => m,
         Some(Err(e)) => {
             c.check("gaussian.fit-ok", false, &sg, || format!("fit returned Err({}) on a valid training set", e));
@@ -616,6 +617,7 @@ fn gaussian_offset(c: &mut Case) {
 // ------------------------------------------------------------------------------------------------
 
 fn multinomial_t<T: SNum>(c: &mut Case) {
+    let idx = c.index;
     let wd = width::<T>();
     c.bucket(&format!("width:{}", wd));
     let lab = draw_labels(c, false, 1);
@@ -648,7 +650,7 @@ fn multinomial_t<T: SNum>(c: &mut Case) {
         params = params.with_priors(tv::<T>(p));
     }
     let sg = format!("{}/labels:{}", wd, lab.style);
-    let model = match c.must("multinomial.fit", || MultinomialNB::fit(&xm, &yt, params)) {
+    let model = match c.must("multinomial.fit", || MultinomialNB::fit(&xm, &yt, scverif::reused(idx, params))) {
         Some(Ok(m)) => m,
         Some(Err(e)) => {
             c.check("multinomial.fit-ok", false, &sg, || format!("fit returned Err({}) on a valid training set", e));
@@ -861,6 +863,7 @@ fn bin(v: f64, th: Option<f64>) -> f64 {
 }
 
 fn bernoulli_run<T: SNum>(c: &mut Case, inp: BernInput, tag: f64) {
+    let idx = c.index;
     let wd = width::<T>();
     let BernInput { lab, x, alpha, binarize, user_priors, qm, qkind, mode } = inp;
     let (k, d) = (lab.k(), x.c);
@@ -885,7 +888,7 @@ fn bernoulli_run<T: SNum>(c: &mut Case, inp: BernInput, tag: f64) {
     }
     let sg = format!("{}/labels:{}", wd, lab.style);
     let sgb = format!("{}/{}{}", wd, mode, if at_threshold { "/value==threshold" } else { "" });
-    let model = match c.must("bernoulli.fit", || BernoulliNB::fit(&xm, &yt, params)) {
+    let model = match c.must("bernoulli.fit", || BernoulliNB::fit(&xm, &yt, scverif::reused(idx, params))) {
         Some(Ok(m)) => m,
         Some(Err(e)) => {
             c.check("bernoulli.fit-ok", false, &sgb, || format!("fit returned Err({}) on a valid training set", e));
@@ -1028,6 +1031,7 @@ fn bernoulli_enum(c: &mut Case) {
 // ------------------------------------------------------------------------------------------------
 
 fn categorical_t<T: SNum>(c: &mut Case) {
+    let idx = c.index;
     let wd = width::<T>();
     c.bucket(&format!("width:{}", wd));
     let lab = draw_labels(c, true, 1);
@@ -1079,7 +1083,7 @@ fn categorical_t<T: SNum>(c: &mut Case) {
     let yt: Vec<T> = tv(&y);
     let params = CategoricalNBParameters::default().with_alpha(t::<T>(alpha));
     let sg = format!("{}/labels:{}", wd, lab.style);
-    let model = match c.must("categorical.fit", || CategoricalNB::fit(&xm, &yt, params)) {
+    let model = match c.must("categorical.fit", || CategoricalNB::fit(&xm, &yt, scverif::reused(idx, params))) {
         Some(Ok(m)) => m,
         Some(Err(e)) => {
             c.check("categorical.fit-ok", false, &sg, || format!("fit returned Err({}) on a valid training set", e));
